@@ -316,6 +316,22 @@ var builtinMap = map[string]code{
 	"copy":   codeCopy,
 }
 
+// hasCall reports whether evaluating the expression may run script or native code (a call or a function literal).
+func hasCall(tok *token) bool {
+	if tok == nil {
+		return false
+	}
+	if tok.Symbol == "call" || tok.Symbol == "func" || tok.Symbol == "lambda" {
+		return true
+	}
+	for _, t := range tok.Tokens {
+		if hasCall(t) {
+			return true
+		}
+	}
+	return false
+}
+
 // posOf is the position of a token as instructions carry it.
 func (c *compiler) posOf(tok *token) pos {
 	return newPos(c.Globals, tok.Pos.Filename, c.FuncName, tok.Pos.Line, tok.Pos.Column)
@@ -361,7 +377,29 @@ func (c *compiler) compile(tok *token) []instruction {
 			todo = append(todo, instruction{Code: infixMap[tok.Symbol[:len(tok.Symbol)-1]]})
 		}
 		arg := tok.Tokens[0]
-		if arg.Symbol == "index" {
+		if (arg.Symbol == "index" || arg.Symbol == ".") && hasCall(arg) {
+			// m[next()] += v, next().x++: the operands of the target are evaluated once, into hidden slots
+			const indexItem, indexKey = 0, 1
+			item := c.Locals.Index(tok.Pos.String() + "#item")
+			res = append(res, c.compile(arg.Tokens[indexItem])...)
+			res = append(res, instruction{Code: codeLocalSet, A: reg(item)})
+			target := []instruction{{Code: codeLocalGet, A: reg(item)}}
+			get, set := instruction{Code: codeGet, Pos: c.posOf(arg)}, instruction{Code: codeSet, Pos: c.posOf(arg)}
+			if arg.Symbol == "index" {
+				key := c.Locals.Index(tok.Pos.String() + "#key")
+				res = append(res, c.compile(arg.Tokens[indexKey])...)
+				res = append(res, instruction{Code: codeLocalSet, A: reg(key)})
+				target = append(target, instruction{Code: codeLocalGet, A: reg(key)})
+			} else {
+				attr := reg(c.Globals.Index(arg.Tokens[indexKey].Text))
+				get, set = instruction{Code: codeGetAttr, A: attr, Pos: c.posOf(arg)}, instruction{Code: codeSetAttr, A: attr, Pos: c.posOf(arg)}
+			}
+			res = append(res, target...)
+			res = append(res, get)
+			res = append(res, todo...)
+			res = append(res, target...)
+			res = append(res, set)
+		} else if arg.Symbol == "index" {
 			const indexItem, indexKey = 0, 1
 			res = append(res, c.compile(arg.Tokens[indexItem])...)
 			res = append(res, c.compile(arg.Tokens[indexKey])...)
